@@ -294,6 +294,9 @@ func freshSlice(v ssa.Value, depth int) bool {
 		if _, ok := o.V.(*ssa.MakeSlice); ok {
 			continue
 		}
+		if al, ok := o.V.(*ssa.Alloc); ok && al.Comment == "makeslice" {
+			continue // make([]T, n, k) with constant sizes is lowered to a slice of a new array
+		}
 		if call := asCall(o.V); call != nil && calleeName(&call.Call) == "builtin append" {
 			if a0 := call.Call.Args[0]; a0 == v || freshSliceNoCycle(a0, v, depth+1) {
 				continue
@@ -538,6 +541,10 @@ func ruleR09_45(c *Ctx) {
 				// miss path: returned request carries the stored result (when one is returned at all)
 				rq := r.Results[m.reqIdx]
 				if isNilConst(rq) {
+					continue
+				}
+				// (an exit taken because the computation yielded nothing has nothing to store)
+				if cv := comps[0].Value(); cv != nil && guardedBy(r, comps[0], factNil(vOrigins(oIsValue(cv)), true)) {
 					continue
 				}
 				okStore := false
